@@ -60,6 +60,15 @@ CHECKS.update({
                 note="Assumed and recorded in the evidence: caller-supplied partial entries of update/union_update/intersection_update/difference_update/set_if meet their documented preconditions; assume_unique=True is the caller's promise; an INDX file being loaded was saved from a well-formed index. Range and exclusivity are decided by a table of accepted provenances (one line of reason each), not by arithmetic. Trusted: the row-id transfer table in sa/rowids.py.", ref="4 C07"),
 })
 
+CHECKS.update({
+    "C14": dict(cat="other", technique="case-set extraction from the symbolic walk of _walk (emissions / recursions with their coordinate form, row form, branch conditions, loop context, dominating len() guard) compared with the six required cases",
+                text="Decides the walk schema: every callback invocation or recursion is (base ++ entry coords, entry rows | INTERSECT(base rows, entry rows)) from one loop iteration or (base ++ (-1,), base rows); each emission and each recursion on an intersection is behind a len() test; the marginal recursion is unconditional and outside the entry loop, the marginal emission only when base rows exist; the six cases appear exactly once each and nothing else is presented; entries are iterated without force and .common is never read; walk starts at ((), None) and interactions collects the delivered pairs.",
+                note="Declined: equality of delivered row ids with a brute-force oracle (values). Relies on C08 (exact intersection) and C07 (non-empty entries).", ref="4 C14"),
+    "C13": dict(cat="other", technique="tuple-term shape algebra over cube constructors, region constructors and task closures; structural unrolling rules for slices1d / product",
+                text="Decides the axis-order algebra: scaffold_shape enumerates d.shape[1:] in dims order then axis order; working_shape / marginless / corner (index cube) and shape (array cube) put the extra axes first, then one category axis per dimension; every aggregator allocates cube-shape ++ fact columns and ffunc results are trimmed by marginless; slices1d peels the last axis and prepends its coordinate (axis order), xcube.product enumerates range(extent) per extra axis in order; a task's data slices and coordinates come from the same product element in the same order; sub-cubes inherit the parent's category extents; blocks are selected by integer indices on leading axes (views).",
+                note="Declined: the block at any extra-axis position equals the cube of the corresponding 1-D slices (values). ccube.shape is deliberately not checked (not on any result path). Unrecognised formulations are UNDECIDED.", ref="4 C13"),
+})
+
 NA_REASON = "check not built yet (build in progress; see DESIGN.md section 8)"
 
 
